@@ -6,6 +6,7 @@ those atoms.  Atoms:  'ONE' (constant 1), ('v', name, i) (bit i of a free input)
 Two expressions with equal normal forms compute the same function for all inputs (tables treated as
 uninterpreted functions).  This is symbolic normalisation of the source expression, not execution.
 """
+import re
 
 ONE = "ONE"
 
@@ -92,6 +93,9 @@ def lookup(table, row, idx, w):
 WIDTH = {"u8": 8, "u16": 16, "u32": 32, "u64": 64, "usize": 64, "i8": 8, "i16": 16, "i32": 32, "i64": 64, "isize": 64}
 
 
+_FROM = re.compile(r"^(?:std|core)::convert::num::<impl (?:std|core)::convert::From<(?:u8|u16|u32|bool)> for (u8|u16|u32|u64|usize|i16|i32|i64|isize|u128|i128)>::from$")
+
+
 class Normalizer:
     """turns analysis.expr trees into normal forms.
     env: callback name-> (atom name, width) for ('var', …) leaves and indexable inputs;
@@ -101,6 +105,7 @@ class Normalizer:
         self.var_width = var_width      # fn(var expr) -> (name, width) or None
         self.tables = tables            # path -> (rows or None, width)
         self.index_inputs = index_inputs or (lambda e: None)
+        self.helpers = {}               # callee path -> ((argument widths), fn(*bit vectors) -> bit vector): helpers whose own form is checked
         self.fail = None
 
     def nf(self, e, want=None):
@@ -185,6 +190,36 @@ class Normalizer:
                     return None
                 return lookup(b0[1], row, i, w)
             self.fail = "index into something that is not a known table: %r" % (b0,)
+            return None
+        if k == "call":
+            # lossless widenings written as conversions: usize::from(x), u32::from(x), x.into()
+            m = _FROM.match(e[1])
+            if m and len(e[2]) == 1:
+                w = WIDTH.get(m.group(1))
+                a = self.nf(e[2][0], None)
+                if a is None:
+                    return None
+                if w is None or len(a) > w:
+                    self.fail = "conversion %s" % e[1]
+                    return None
+                return resize(a, w)
+            h = self.helpers.get(e[1])
+            if h is not None:
+                widths, fn = h
+                if len(widths) != len(e[2]):
+                    self.fail = "helper %s: arity" % e[1]
+                    return None
+                args = []
+                for w, a in zip(widths, e[2]):
+                    x = self.nf(a, w)
+                    if x is None:
+                        return None
+                    if len(x) != w:
+                        self.fail = "helper %s: argument width" % e[1]
+                        return None
+                    args.append(x)
+                return fn(*args)
+            self.fail = "call of %s outside the fragment" % e[1]
             return None
         self.fail = "expression kind %s outside the fragment" % k
         return None
